@@ -96,6 +96,13 @@ class _FuseBatchNormBase(RewriteRuleClassBase, ABC):
         inbound_node = inbound_out.producer()
         batchnorm_node = batchnorm_out.producer()
 
+        # In training mode BatchNormalization normalizes with the batch statistics, not with mean/var.
+        if batchnorm_node.attributes.get_int("training_mode", 0) != 0:
+            return check_result.fail(f"{batchnorm_node.name} is in training mode.")
+        # The folded bias replaces Gemm's C, which Gemm scales by beta.
+        if inbound_node.op_type == "Gemm" and inbound_node.attributes.get_float("beta", 1.0) != 1.0:
+            return check_result.fail(f"{inbound_node.name} has beta != 1.")
+
         # Check that inbound weights + (inbound bias) + batchnorm params are initializers
         # and that they are not graph inputs
         initializers = [inbound_node.inputs[1], *batchnorm_node.inputs[1:]]
